@@ -1,11 +1,11 @@
 package enga
 
 import (
-	"math"
 	"bytes"
 	"encoding/json"
 	"fmt"
 	goyaml "github.com/goccy/go-yaml"
+	"math"
 	"math/rand/v2"
 	"os"
 	"path/filepath"
@@ -385,7 +385,27 @@ func c15JSONOverlap(c *vkit.Ctx, r *rand.Rand, i int) {
 	kind := "any"
 	ph, phk := drawPlaceholder(r)
 	mk := func(ps ...string) match.JSONMatcher { return match.Any(ps...).Placeholder(ph) }
-	if r.IntN(2) == 0 {
+	if r.IntN(5) == 0 {
+		// Type instantiated with an interface type: every value passes and each gets the
+		// placeholder of its own dynamic type
+		kind = "type-any"
+		mk = func(ps ...string) match.JSONMatcher { return match.Type[any](ps...) }
+		if r.IntN(2) == 0 {
+			// ... over unrelated paths of different kinds
+			var mixed []string
+			seen := map[string]bool{}
+			for _, p := range all {
+				k := d.At(p).Kind
+				if !seen[k] && k != "null" {
+					seen[k] = true
+					mixed = append(mixed, p.GJSON())
+				}
+			}
+			if len(mixed) >= 2 {
+				paths, shape = mixed, "unrelated-paths-of-different-kinds"
+			}
+		}
+	} else if r.IntN(2) == 0 {
 		// Type of the first path's value: the second visit of a path sees the placeholder string
 		kind = "type"
 		switch d.At(ps[0]).Kind {
